@@ -297,7 +297,7 @@ theorem iso_susp_terminates (cfg : Iso.Cfg) (b : GS) (hwf : b.wf) :
   Iso.suspLoop_terminates cfg b hwf _ 0 [] (by omega) (by omega)
 
 /-- as found (before 74e8a72, finding iso-susp-er-short): an ER entry of 4 bytes is indexed at [4] -/
-theorem cex_iso_er_short : Iso.parseSusp ⟨false, true⟩ (GS.ofBytes [69, 82, 4, 1]) 3 = .panic := by decide
+theorem cex_iso_er_short : Iso.parseSusp { er := false, joliet := true } (GS.ofBytes [69, 82, 4, 1]) 3 = .panic := by decide
 
 theorem iso_dirEntry_no_panic (cfg : Iso.Cfg) (her : cfg.er = true) (joliet : Bool) (b : GS) (hwf : b.wf)
     (fuel : Nat) : Iso.dirEntryFromBytes cfg joliet b fuel ≠ .panic :=
@@ -319,7 +319,7 @@ theorem iso_dirEntries_terminates (joliet : Bool) (bs : Nat) (hbs : 0 < bs) (b :
 
 /-- as found (finding iso-joliet-dirrecord-oob): a Joliet record longer than the directory bytes -/
 theorem cex_iso_joliet_oob :
-    Iso.parseDirEntries ⟨true, false⟩ true 2048 (GS.ofBytes (60 :: List.replicate 39 0)) 3 = .panic := by decide
+    Iso.parseDirEntries { er := true, joliet := false } true 2048 (GS.ofBytes (60 :: List.replicate 39 0)) 3 = .panic := by decide
 
 /-! ### squashfs readMetadata, fragments, id table -/
 
